@@ -518,6 +518,18 @@ func init() {
 			return callSSABody(fr.i, fr, fn, args)
 		},
 		"time.Parse": func(fr *frame, args []value) value {
+			if _, ok := args[1].(string); !ok {
+				// symbolic bytes: uninterpreted outcome (error, or some instant)
+				cur.approx("time.Parse on symbolic bytes: uninterpreted (ok, instant)")
+				tt := fr.i.prog.ImportedPackage("time").Type("Time").Type()
+				if cur.branch(cur.fresh("Bool", "timeparse.ok")) {
+					z := zero(tt).(structure)
+					z[0] = uint64(0)
+					z[1] = symI{64, true, types.Int64, cur.fresh(bvSort(64), "timeparse.sec")}
+					return tuple{z, iface{}}
+				}
+				return tuple{zero(tt), errVal("parsing time: cannot parse")}
+			}
 			t, err := time.Parse(strArg(args[0]), strArg(args[1]))
 			if err != nil {
 				return tuple{zero(fr.i.prog.ImportedPackage("time").Type("Time").Type()), errVal(err.Error())}
